@@ -333,6 +333,88 @@ func TestVerifC16(t *testing.T) {
 		R.Sample(map[string]any{"outcome_classes": outcomes})
 		R.Write()
 	}
+	// ---- composed lists ------------------------------------------------------------------------
+	// Longer inputs than the raw part reaches: lists put together from element strings with hostile quoted values
+	// (trailing backslashes, escaped quotes, commas and braces inside quotes, classic-only escapes). Composition law,
+	// for the classic and for the UTF-8 parser separately: if every element alone parses to m_i, the list parses to
+	// [m_1..m_n]; plus the fallback law of the raw part on the composed string.
+	if shard == 0 {
+		R := rep.New("C16", "composed")
+		vals := []string{`"\\"`, `"\d\\"`, `"a\"b"`, `"a,b"`, `"{"`, `"}"`, `"x\n"`, `"1"`, `1`, `""`, `"é"`, `"\\\\"`, `"\\\""`, `"\d"`}
+		var elems []string
+		for _, n := range []string{"a", "b"} {
+			for _, op := range []string{"=", "=~", "!="} {
+				for _, v := range vals {
+					elems = append(elems, n+op+v)
+				}
+			}
+		}
+		type parsed struct{ c, u pres }
+		one := map[string]parsed{}
+		for _, e := range elems {
+			one[e] = parsed{safe1(labels.ParseMatcher, e), safe1(parse.Matcher, e)}
+		}
+		maxN := 2
+		if rep.Thorough() {
+			maxN = 3
+		}
+		var rec func(cur []string)
+		rec = func(cur []string) {
+			if len(cur) >= 2 {
+				for form := 0; form < 3; form++ {
+					str := strings.Join(cur, ",")
+					switch form {
+					case 0:
+						str = "{" + str + "}"
+					case 2:
+						str = "{" + str + ",}"
+					}
+					R.Executions++
+					R.Transitions += 3
+					cN := safeN(func(x string) (labels.Matchers, error) { r, e := labels.ParseMatchers(x); return labels.Matchers(r), e }, str)
+					uN := safeN(parse.Matchers, str)
+					for _, side := range []struct {
+						name string
+						got  pres
+						of   func(p parsed) pres
+					}{{"classic", cN, func(p parsed) pres { return p.c }}, {"utf8", uN, func(p parsed) pres { return p.u }}} {
+						all := true
+						var want labels.Matchers
+						for _, e := range cur {
+							p := side.of(one[e])
+							if p.err != nil || p.pan != nil {
+								all = false
+								break
+							}
+							want = append(want, p.m)
+						}
+						if side.got.pan != nil && R.NViolations < 20 {
+							R.Violate("parser-panics", fmt.Sprintf("%s list parser on %q: %v", side.name, str, side.got.pan), map[string]any{"part": "composed", "input": str})
+						}
+						if all && (side.got.err != nil || !reflect.DeepEqual(side.got.ms, want)) && R.NViolations < 20 {
+							R.Violate("list-of-valid-matchers-not-parsed-as-its-elements", fmt.Sprintf("%s parser: every element of %q parses alone (to %v), the list gives %v (err %v)", side.name, str, want, side.got.ms, side.got.err), map[string]any{"part": "composed", "input": str})
+						}
+					}
+					if sig, desc := c16Raw(str, fb1, fbN); sig != "" && R.NViolations < 20 {
+						R.Violate(sig, desc, map[string]any{"part": "composed", "input": str})
+					}
+					if cN.err == nil || uN.err == nil {
+						R.AddKey(str)
+					}
+				}
+			}
+			if len(cur) == maxN {
+				return
+			}
+			for _, e := range elems {
+				rec(append(append([]string{}, cur...), e))
+			}
+		}
+		rec(nil)
+		R.Exhaustive = true
+		R.Bound = fmt.Sprintf("all lists of 2..%d elements out of %d element strings (2 names x 3 operators x %d hostile values), as {a,b} / a,b / {a,b,}", maxN, len(elems), len(vals))
+		R.Write()
+	}
 	// ---- round trip ----------------------------------------------------------------------------
 	{
 		R := rep.New("C16", "roundtrip")
